@@ -151,6 +151,9 @@ def unauth_corpus(w, target):
     for exch in (34, 35, 36, 37, 0, 255):
         for flags in (0, 0x08, 0x20, 0x28, 0xFF):
             add('header-only:exch=%d:flags=%02x:live-spi' % (exch, flags), F.clear(si, sr, exch, flags, 0))
+    for flags in (0, 0x08):
+        add('init-req-spi-zero:flags=%02x' % flags, F.clear(b'\0' * 8, b'\0' * 8, 34, flags, 0))
+        add('init-req-spi-zero-from-stranger:flags=%02x' % flags, F.clear(b'\0' * 8, b'\0' * 8, 34, flags, 0), STRANGER)
     add('header-only:unknown-spi', F.clear(b'\xaa' * 8, b'\xbb' * 8, 37, 0x08, 0))
     add('length-field-lies', F.hdr(si, sr, 0, 37, 0x08, 0, 5000))
     add('version-3', F.clear(si, sr, 37, 0x08, 0, version=0x30))
@@ -288,6 +291,8 @@ def inject_and_finish(w0, kind, target, label, payload, src=None):
     def go():
         if kind == 'dgram':
             w.step(('inject', target, payload, src))
+            if label.startswith('auth:') and w.endpoints[target].alive:
+                w.step(('inject', target, payload, src))      # and its natural retransmission
         else:
             w.step(('kevent', target, payload))
     try:
